@@ -201,30 +201,44 @@ def union (left right : IdSet) : IdSet :=
   else if right.length ≠ 0 && left.length = 0 then right
   else LSet.union left right
 
+/-- what `_apply` asks of the indexes: `Comparator._apply` and `_Range._apply` as oracles.  The
+composition below is written once over the oracle; it is instantiated with the specification-level
+leaves (`specLeaves`, this file) and with the index models of C01/C02 (`HypatiaModel/QueryModel.lean`). -/
+structure Leaves where
+  cmp : Cmp → Nat → Val → Except Err IdSet
+  range : Bool → Nat → Int → Int → Bool → Bool → Except Err IdSet
+
 /-- `_apply` with an explicit evaluation budget for `Not` (which re-enters on the negated
 tree).  `applyQ` below instantiates the budget with `size q`, which always suffices
 (`negate` does not grow a tree); the budget is never exhausted on any input (`applyFuel_enough`
 is exercised by the driver printing `err fuel` otherwise). -/
-def applyFuel (cat : Catalog) : Nat → Q → Except Err IdSet
+def applyFuelL (L : Leaves) : Nat → Q → Except Err IdSet
   | 0, _ => .error .valueError
   | fuel + 1, q =>
     match q with
-    | .cmp c i v => applyCmp cat c i v
-    | .range neg i lo hi el eh => applyRange cat neg i lo hi el eh
-    | .not q => applyFuel cat fuel (negate q)
+    | .cmp c i v => L.cmp c i v
+    | .range neg i lo hi el eh => L.range neg i lo hi el eh
+    | .not q => applyFuelL L fuel (negate q)
     | .and [] => .error .indexError
     | .and (q0 :: rest) => do
-      let r0 ← applyFuel cat fuel q0
+      let r0 ← applyFuelL L fuel q0
       rest.foldlM (fun result q =>
         if result.length = 0 then pure [] else do
-          let right ← applyFuel cat fuel q
+          let right ← applyFuelL L fuel q
           pure (intersect result right)) r0
     | .or [] => .error .indexError
     | .or (q0 :: rest) => do
-      let r0 ← applyFuel cat fuel q0
+      let r0 ← applyFuelL L fuel q0
       rest.foldlM (fun result q => do
-          let right ← applyFuel cat fuel q
+          let right ← applyFuelL L fuel q
           pure (union result right)) r0
+
+def applyQL (L : Leaves) (q : Q) : Except Err IdSet := applyFuelL L (size q + 1) q
+
+/-- leaves answered at specification level -/
+def specLeaves (cat : Catalog) : Leaves := { cmp := applyCmp cat, range := applyRange cat }
+
+def applyFuel (cat : Catalog) : Nat → Q → Except Err IdSet := applyFuelL (specLeaves cat)
 
 def applyQ (cat : Catalog) (q : Q) : Except Err IdSet := applyFuel cat (size q + 1) q
 
